@@ -70,6 +70,13 @@ pub fn step(s: &KS, cmd: &Cmd, cas: u64, r: Option<&Resp>) -> Vec<KS> {
                         Some(r) if r.status == st::OK => {
                             if &r.value == v && r.cas == *c && f.map(|f| Some(f) == r.flags()).unwrap_or(true) {
                                 same()
+                            } else if &r.value == v && *c == 0 && r.cas != 0 && f.map(|f| Some(f) == r.flags()).unwrap_or(true) {
+                                // the CAS of an item written by a silent (quiet) mutation is learnt from the first hit
+                                if let KS::Present { v, f, live, cl, .. } = s {
+                                    vec![KS::Present { v: v.clone(), f: *f, c: r.cas, live: *live, cl: *cl }]
+                                } else {
+                                    none()
+                                }
                             } else {
                                 none()
                             }
@@ -717,6 +724,10 @@ fn tags_for(prop: &str, h: &[HOp], init: &KS) -> Vec<&'static str> {
     if matches!(init, KS::Present { live: false, .. }) {
         t.push("C05");
     }
+    // a quiet command must have the same effect as its loud twin, also under a race
+    if h.iter().any(|o| o.cmd.quiet() && !matches!(o.cmd, Cmd::Get { .. })) {
+        t.push("C19");
+    }
     t
 }
 
@@ -994,7 +1005,7 @@ pub fn run(ctx: &Ctx) -> i32 {
         cas_versions(ctx, &sh);
     }
     // ---- two commands released together, tens of thousands of times, with the alignment swept
-    if matches!(ctx.prop.as_str(), "C03" | "C04" | "C02" | "C08") && !miri {
+    if matches!(ctx.prop.as_str(), "C01" | "C03" | "C04" | "C02" | "C08" | "C19" | "C06" | "C07") && !miri {
         race_sweep(ctx, &sh);
     }
     // ---- present keys stay present while whole-store operations hold the map's locks for long
@@ -1324,6 +1335,11 @@ fn race_sweep(ctx: &Ctx, sh: &Shared) {
         Incr,
         Add,
         Replace,
+        DelStale,
+        SetQ,
+        AddQ,
+        DelQ,
+        AppendQ,
     }
     // (initial state present?, expired?, op of thread A, op of thread B)
     let c03: Vec<(bool, bool, R, R)> = vec![
@@ -1345,9 +1361,36 @@ fn race_sweep(ctx: &Ctx, sh: &Shared) {
         (true, false, R::Append, R::Set),
         (true, true, R::Add, R::Add),
     ];
+    // a command that is refused must not disturb a concurrent reader; quiet variants take the same locks
+    let c01: Vec<(bool, bool, R, R)> = vec![
+        (true, false, R::DelStale, R::Get),
+        (true, false, R::Set, R::Get),
+        (true, false, R::Replace, R::Get),
+        (true, false, R::Append, R::Get),
+        (true, false, R::DelStale, R::Append),
+    ];
+    let c19: Vec<(bool, bool, R, R)> = vec![
+        (true, false, R::SetQ, R::Append),
+        (true, false, R::SetQ, R::Incr),
+        (false, false, R::AddQ, R::AddQ),
+        (true, false, R::DelQ, R::Append),
+        (true, false, R::AppendQ, R::Append),
+        (true, false, R::SetQ, R::Replace),
+        (false, false, R::SetQ, R::Add),
+    ];
     let pairs = match ctx.prop.as_str() {
         "C04" => c04,
-        "C03" | "C02" => c03,
+        "C01" => {
+            let mut v = c01;
+            v.extend(c03);
+            v
+        }
+        "C19" => c19,
+        "C03" | "C02" => {
+            let mut v = c03;
+            v.extend(c01);
+            v
+        }
         _ => {
             let mut v = c03;
             v.extend(c04);
@@ -1398,6 +1441,11 @@ fn race_sweep(ctx: &Ctx, sh: &Shared) {
                         R::Incr => (Cmd::Counter { incr: true, key: 0, delta: 1 + who as u64, initial: 50, exp: 0, cas: CasArg::Zero, quiet: false }, 0),
                         R::Add => (Cmd::Store { op: op::ADD, key: 0, value: val, flags: 5, ttl: 0, cas: CasArg::Zero, quiet: false }, 0),
                         R::Replace => (Cmd::Store { op: op::REPLACE, key: 0, value: val, flags: 6, ttl: 0, cas: CasArg::Zero, quiet: false }, 0),
+                        R::DelStale => (Cmd::Delete { key: 0, cas: CasArg::Raw(c0 ^ 0x5555_0000), quiet: false }, c0 ^ 0x5555_0000),
+                        R::SetQ => (Cmd::Store { op: op::SET, key: 0, value: val, flags: 3, ttl: 0, cas: CasArg::Zero, quiet: true }, 0),
+                        R::AddQ => (Cmd::Store { op: op::ADD, key: 0, value: val, flags: 5, ttl: 0, cas: CasArg::Zero, quiet: true }, 0),
+                        R::DelQ => (Cmd::Delete { key: 0, cas: CasArg::Zero, quiet: true }, 0),
+                        R::AppendQ => (Cmd::Concat { append: true, key: 0, value: val, cas: CasArg::Zero, quiet: true }, 0),
                     }
                 };
                 let mut hs = vec![];
